@@ -2,7 +2,7 @@
 From Coq Require Import ExtrOcamlBasic.
 From Coq Require Extraction.
 From Coq Require Import NArith ZArith List.
-From Muscle Require Import Gen.Consts Refl.Base Refl.Tree Refl.Matcher Refl.Traverse Refl.Session Refl.Server Refl.Mirror.
+From Muscle Require Import Gen.Consts Refl.Base Refl.Tree Refl.Matcher Refl.Traverse Refl.Session Refl.Server Refl.Mirror Refl.Params.
 Definition dump_fuel : nat := S (N.to_nat c_MUSCLE_MAX_NODE_DEPTH).
-Extraction "mirror_model.ml" world_step empty_world all_fixed as_found dfs dump_fuel sv_tree sv_sessions
+Extraction "mirror_model.ml" world_step pworld_step empty_pworld pw_world empty_world all_fixed as_found dfs dump_fuel sv_tree sv_sessions
   w_srv w_clients w_last matches_path expected own_path visits mirror_get.
